@@ -6,6 +6,7 @@ import SafeC.DriverAlloc
 import SafeC.DriverConv
 import SafeC.DriverSort
 import SafeC.DriverPrintf
+import SafeC.DriverNorm
 /-!
 `safec_model`: reads op lines (see harness/hx.c), runs the Lean model of the named entry point
 on the same memory layout, prints the model's observation line.
@@ -35,6 +36,7 @@ def processLine (line : String) : String := Id.run do
   if (lookup m "bs").isSome then return bsLine id m
   if (lookup m "cyc").isSome then return cycLine id m
   if let some k := lookup m "pf" then return Pf.printfLine id k m
+  if let some k := lookup m "uni" then return Uni.uniLine id k m
   let some fn := lookup m "fn" | return s!"id={id} err=badop"
   let slack := (lookup m "slack").getD "1" != "0"
   let mut regs : Array Region := #[]
